@@ -237,6 +237,25 @@ package coordinator
 //@   ensures sound: result != nil ==> designates(result, t)
 //@   ensures complete: result == nil ==> all(k, 0, len(l.items), !designates(l.items[k], t))
 
+// Covers decides whether MapShards has to ask the meta service for a group: it must agree with the lookup,
+// otherwise a needed group is never created (the point is dropped) or a second group is created needlessly.
+//@ func (sgList).Covers
+//@   props C08
+//@   requires sorted_already: !l.needsSort
+//@   requires inv: list_inv(l)
+//@   ensures not_covered_means_no_group_designates: !result ==> all(k, 0, len(l.items), !designates(l.items[k], t))
+//@   ensures covered_means_some_group_designates: result ==> !all(k, 0, len(l.items), !designates(l.items[k], t))
+
+// MapPoint records the point under the shard it was routed to: exactly one more point for that shard, the point
+// itself, and the other shards' lists are left alone (routing neither loses nor duplicates a point).
+//@ func (*ShardMapping).MapPoint
+//@   props C08
+//@   nosafety
+//@   requires s.n >= 1 && s.Points != nil && s.Shards != nil
+//@   requires lists_were_made_by_MapPoint: has(s.Points, shardInfo.ID) ==> len(s.Points[shardInfo.ID]) == 0 || cap(s.Points[shardInfo.ID]) >= s.n
+//@   ensures recorded_once_under_its_shard: has(s.Points, shardInfo.ID) && len(s.Points[shardInfo.ID]) == ite(old(has(s.Points, shardInfo.ID)), old(len(s.Points[shardInfo.ID])), 0) + 1 && s.Points[shardInfo.ID][len(s.Points[shardInfo.ID])-1] == p
+//@   ensures shard_registered: s.Shards[shardInfo.ID] == shardInfo
+
 // Per-owner goroutine body (C03.2). The store, the shard writer and hinted handoff are abstracted:
 // every call returns an arbitrary result. Ghosts record what the body did.
 // ---- C03: a cluster write honours the requested consistency level ----
